@@ -874,7 +874,13 @@ def check_ctor_case(ctx, case):
             DCMotor(name='m', inertia_moment=J, no_load_speed=U.AngularSpeed(1, 'rad/s'), maximum_torque=U.Torque(1, 'Nm'),
                     no_load_electric_current=U.Current(x[0], case['u'][0]), maximum_electric_current=U.Current(x[1], case['u'][1]))
         elif what == 'teeth':
-            SpurGear(name='g', n_teeth=x, inertia_moment=J)
+            cls = case.get('cls', 'SpurGear')
+            if cls == 'SpurGear':
+                SpurGear(name='g', n_teeth=x, inertia_moment=J)
+            elif cls == 'HelicalGear':
+                HelicalGear(name='g', n_teeth=x, inertia_moment=J, helix_angle=U.Angle(20, 'deg'))
+            else:
+                WormWheel(name='g', n_teeth=x, inertia_moment=J, helix_angle=U.Angle(10, 'deg'), pressure_angle=U.Angle(20, 'deg'))
         elif what == 'modulus':
             SpurGear(name='g', n_teeth=20, inertia_moment=J, module=U.Length(1, 'mm'), face_width=U.Length(5, 'mm'),
                      elastic_modulus=U.Stress(x, case['u']))
@@ -922,8 +928,11 @@ def run_ctor_checks(ctx):
                           'u': [u0, u1], 'ok': 0 <= f < 1})
         cases.append({'t': 'ctor', 'what': 'currents', 'x': [0.1, 0.0], 'u': [u0, u0], 'ok': False})
         cases.append({'t': 'ctor', 'what': 'currents', 'x': [0.1, -1.0], 'u': [u0, u0], 'ok': False})
-        for z in (t['min_teeth'] - 1, t['min_teeth'], t['min_teeth'] + rng.randint(1, 200), rng.randint(-5, 9)):
-            cases.append({'t': 'ctor', 'what': 'teeth', 'x': z, 'ok': z >= t['min_teeth']})
+        # the tabulated minimum is read from the Lewis-factor table file itself, not from the package's constant
+        from harness.gears_h import read_csv
+        zmin = int(min(r[0] for r in read_csv('lewis_factor_table.csv')))
+        for z in (zmin - 1, zmin, zmin + rng.randint(1, 200), rng.randint(-5, zmin - 1), rng.randint(0, zmin - 1)):
+            cases.append({'t': 'ctor', 'what': 'teeth', 'cls': rng.choice(['SpurGear', 'HelicalGear', 'WormWheel']), 'x': z, 'ok': z >= zmin})
         u = rng.choice(units_of('Angle'))
         for deg in (0.0, rng.uniform(1, 89), 89.999, 90.0, 90.001, rng.uniform(91, 400)):
             cases.append({'t': 'ctor', 'what': 'helix', 'x': float(F(deg) * SI['Angle']['deg'] / SI['Angle'][u]), 'u': u, 'ok': deg < 90})
